@@ -121,10 +121,16 @@ func c17BigIndexCase(ctx *vkit.Ctx, cs *vkit.Case) {
 	o := c17Opts{FwMetric: metric, Tf: T, FwIndexCreated: true, CacheMetric: distance.Cosine, Tc: T, TTL: vkit.Pick(r, []time.Duration{time.Hour, 24 * time.Hour})}
 	if mode == "firewall" {
 		o.FirewallEnabled = true
+		if r.Chance(0.4) {
+			o.FwMem = c17PickMem(r)
+		}
 	} else {
 		o.CacheEnabled = true
 		if r.Chance(0.5) {
 			o.CacheMetric, o.CacheLang = metric, "english"
+			if r.Chance(0.5) {
+				o.CacheMem = c17PickMem(r)
+			}
 		}
 	}
 	g := c17NewRig(ctx, cs, o)
@@ -135,7 +141,9 @@ func c17BigIndexCase(ctx *vkit.Ctx, cs *vkit.Case) {
 		cloud := c17Cloud(r, n, clustered, metric, T)
 		cs.Op("firewall index += %d %s random unit vectors bad_0..bad_%d", n, layout, n-1)
 		for i, v := range cloud {
-			g.must(g.eng.VAdd(c17FwIndex, fmt.Sprintf("bad_%d", i), v, map[string]any{"text": fmt.Sprintf("forbidden prompt %d", i)}), "add forbidden prompt")
+			meta := map[string]any{"text": fmt.Sprintf("forbidden prompt %d", i)}
+			o.FwMem.stamp(r, meta) // memory index: every stored prompt has its own age
+			g.must(g.eng.VAdd(c17FwIndex, fmt.Sprintf("bad_%d", i), v, meta), "add forbidden prompt")
 			g.forbidden = append(g.forbidden, c17Stored{ID: fmt.Sprintf("bad_%d", i), Vec: v})
 			if i%64 == 0 {
 				ctx.Touch()
@@ -197,6 +205,79 @@ func c17BigIndexCase(ctx *vkit.Ctx, cs *vkit.Case) {
 			q.Kind = "big-far/" + layout
 		}
 		g.step("bigindex", q)
+	}
+}
+
+// ---------------------------------------------------------------------------------------
+// group: expiry
+//
+// "... a previously answered one (younger than the TTL)": the other groups judge the TTL on entries the check
+// plants with a creation time of its choice. Here the entries are the ones the gateway stores itself (request
+// forwarded, answered 200, saved), the TTL is a few seconds and the case waits in real time until the harness clock
+// says that every one of them is older than the TTL (plus the 5 s margin of ageClass). From then on a request within
+// the cache distance of such an answer must reach the upstream again; its new answer is "previously answered" and
+// — while still decisively young (TTL 12 s) — is the one that must be served next.
+func c17ExpiryCase(ctx *vkit.Ctx, cs *vkit.Case) {
+	r := cs.R
+	o := c17Opts{CacheEnabled: true, Tc: vkit.Pick(r, c17Thresholds), TTL: vkit.Pick(r, []time.Duration{2 * time.Second, 2 * time.Second, 3 * time.Second, 12 * time.Second}),
+		CacheMetric: distance.Cosine, FwMetric: distance.Cosine, Tf: 0.25}
+	if r.Chance(0.35) {
+		o.CacheMetric = c17PickMetric(r)
+		o.CacheLang = vkit.Pick(r, []string{"english", "italian"})
+		if r.Chance(0.4) {
+			o.CacheMem = c17PickMem(r)
+		}
+	}
+	o.ViaYAML, o.OmitDefaults = r.Chance(0.3), r.Chance(0.5)
+	g := c17NewRig(ctx, cs, o)
+	defer g.close()
+	cm := g.cacheMetric()
+	ask := func(kind string, v []float32) bool {
+		q := &c17Req{Kind: kind, Shape: vkit.Pick(r, []string{"messages", "messages", "prompt"}), NearFw: -1, Text: g.text("", "", ""), Vec: v}
+		_, ok := g.step("expiry", q)
+		return ok
+	}
+	// 1. answers stored by the gateway (and, sometimes, one planted now: it expires together with them)
+	for i, n := 0, r.Range(1, 3); i < n; i++ {
+		ask("expiry-new", g.sp.basis())
+	}
+	if r.Chance(0.3) {
+		g.seq++
+		g.plantAged(g.sp.basis(), fmt.Sprintf(`{"planted":"answer %d"}`, g.seq), 0, nil)
+	}
+	stored := append([]*c17Entry(nil), g.entries...)
+	// 2. while they are decisively young they are served (decidable for the TTL of 12 s only; a request the
+	// harness clock cannot decide is dropped by the generator guard)
+	for _, en := range stored {
+		if r.Chance(0.5) {
+			if v, label := g.vecRel(en.Vec, cm, o.Tc, true); v != nil {
+				ask("expiry-near-young/"+label, v)
+			}
+		}
+	}
+	// 3. real time passes
+	g.waitAllExpired()
+	ctx.Count("expiry.waits", 1)
+	// 4. every stored answer is now older than the TTL
+	for i, en := range stored {
+		if i > 0 && !r.Chance(0.8) {
+			continue
+		}
+		v, label := g.vecRel(en.Vec, cm, o.Tc, true)
+		if v == nil {
+			continue
+		}
+		kind := "expiry-near-expired"
+		if en.Planted {
+			kind = "expiry-near-expired-planted"
+		}
+		before := len(g.entries)
+		if ask(kind+"/"+label, v) && len(g.entries) > before && r.Chance(0.7) {
+			// the answer just given is the stored one from now on (judged while the clock can tell it is young)
+			if nv, nl := g.vecRel(g.entries[len(g.entries)-1].Vec, cm, o.Tc, true); nv != nil {
+				ask("expiry-reask/"+nl, nv)
+			}
+		}
 	}
 }
 
